@@ -61,7 +61,11 @@ void build_vals()
             mul(I, SX),
             pow(SX, integer(2)),
             integer(-7),
-            mul(integer(-2), SX)};
+            mul(integer(-2), SX),
+            // powers with a literal zero base stay unevaluated: not zero
+            // entries, whatever a zero test may think of their base
+            pow(zero, SX),
+            pow(zero, add(SX, SY))};
 }
 // VALS index of the additive inverse (for cancellation), or -1
 int neg_index(int v)
